@@ -286,11 +286,21 @@ Section CoversMain.
           apply andb_true_iff in Hf. destruct Hf as [Hf Hfrs]. apply andb_true_iff in Hf. destruct Hf as [_ Hbok].
           assert (Hndv : NoDup (map v_raw vs)) by (rewrite Hraw; exact Hndn).
           cbn [OForall] in IHone. rewrite Forall_forall in IHone.
-          destruct tg as [|tg|tg ct|]; [| | |discriminate Hpt];
+          destruct tg as [|tg|tg ct|];
             (eapply go_union; [exact Hd|reflexivity|reflexivity|]); cbn [union_ok];
             apply forallb_forall; intros b Hb;
-            pose proof (proj1 (AllP_In _ _) Hbr b Hb) as Hbsh; pose proof (IHone b Hb) as IHb;
+            pose proof (proj1 (AllP_In _ _) Hbr b Hb) as Hbsh; pose proof (proj2 (IHone b Hb)) as IHb;
+            pose proof (proj1 (IHone b Hb)) as IHbB;
             pose proof (one_frags_In _ bs b Hfrs Hb) as Hfb.
+          4: { (* untagged over scalar arms *)
+             cbn [branches_ok] in Hbok. destruct (opt_all_map scalar_arm bs) as [tys|]; [|discriminate].
+             apply andb_true_iff in Hbok. destruct Hbok as [_ Hsk]. rewrite forallb_forall in Hsk.
+             destruct b as [|bty bfmt benum bcst bnv bsv bik bitems bai bmni bmxi buq bprops breq bap bmnp bmxp ballo banyo boneo bno bref bdflt btitle];
+               [discriminate (Hsk _ Hb)|].
+             cbn [branch_sh] in Hbsh. destruct Hbsh as (vr & Hvr & Hsh).
+             apply existsb_exists. exists vr. split; [exact Hvr|]. unfold variant_ok.
+             destruct (v_det vr) as [|t'|ts|ps]; try contradiction.
+             exact (Cv_covers _ t' nn (proj1 IHbB) (scalar_frag cls D _ (Hsk _ Hb)) Hsh). }
           -- (* externally tagged *)
              cbn [variant_names] in Hnames.
              destruct (xall_names_In bs names b Hnames Hb) as (l & Hl).
